@@ -1553,6 +1553,10 @@ class Mode:
                         # x == <singleton>: no class defines an equality that holds between an instance and it, so: x is it
                         c = f"(is_O_{DYN_SINGLETONS[r.id]} {a})"
                         return k(c if isinstance(op, ast.Eq) else f"(negb {c})", "bool")
+                    if DYN and (at, bt) == ("any", "any") and isinstance(op, (ast.Eq, ast.NotEq)):
+                        tr.uses_any = True
+                        c = f"(any_eqb {a} {b})"
+                        return k(c if isinstance(op, ast.Eq) else f"(negb {c})", "bool")
                     if at == ("opt", "any") and bt == "any" and isinstance(op, (ast.Eq, ast.NotEq)):
                         tr.uses_any = True
                         c = f"(match {a} with Some x_ => any_eqb x_ {b} | None => false end)"
@@ -1846,6 +1850,11 @@ class Mode:
                     return f"(map opt_obj {v})"
                 bad(e, f"chain of {t}")
             return self.expr(e.args[0], env, lambda a, at: self.expr(e.args[1], env, lambda b, bt: k(f"({as_list(a, at)} ++ {as_list(b, bt)})", ("seq", "any"))))
+        if isinstance(f, ast.Name) and f.id == "str" and len(e.args) == 1 and not e.keywords and DYN and getattr(tr, "foreign", None) \
+                and isinstance(e.args[0], ast.Name) and env.get(e.args[0].id) == "any":
+            # str(x) of a specified object that is a string (URIRef, BNode, Literal); of any other value: not modelled
+            s_ = tr.gensym("s")
+            return f"match obj_str {mangle(e.args[0].id)} with\n| None => {self.on_exn('OutsideModel')}\n| Some {s_} =>\n{k(s_, 'str')}\nend"
         if isinstance(f, ast.Name) and f.id == "isinstance" and len(e.args) == 2 and not e.keywords and isinstance(e.args[0], ast.Name) \
                 and env.get(e.args[0].id) == "any" and DYN:
             cls_nodes = e.args[1].elts if isinstance(e.args[1], ast.Tuple) else [e.args[1]]
@@ -2279,7 +2288,7 @@ ALLOWED_IMPORTS = {"__future__", "collections", "dataclasses", "typing", "mypy_e
 
 
 CTX_STR = ("Context (S : strops).\nNotation K := (carrier S).\nNotation str_eqb := (s_eqb S).\nNotation str_is_empty := (s_is_empty S).\n"
-           "Notation str_empty := (s_empty S).\nNotation str_add := (s_add S).\nNotation str_rpartition := (s_rpartition S).\n"
+           "Notation str_empty := (s_empty S).\nNotation str_add := (s_add S).\nNotation str_rpartition := (s_rpartition S).\nNotation str_lower := (s_lower S).\n"
            "Notation str_lit := (s_lit S).")
 CTX_TOKENS = re.compile(r"\b(K|str_eqb|str_is_empty|str_empty|str_add|str_rpartition|str_lit)\b")
 UNITS = {
@@ -2362,11 +2371,56 @@ UNITS = {
                                "methods": ["encode_spo", "encode_graph"], "inline": ["get_iri_field", "get_literal_field", "get_triple_field"],
                                "recursive": {"method": "encode_spo", "through": ["TermEncoder_encode_quoted_triple"], "fuel": "term"}},
                               "namespace_declarations", "triples_stream_frames", "quads_stream_frames", "split_to_graphs", "graphs_stream_frames"]},
+    # the rdflib integration's term encoder over rdflib's term objects as SPECIFIED here (URIRef, BNode, Literal: str subclasses; what
+    # str(x), x.language, x.datatype give; `==`: same class and same string, for a Literal also equal language tags up to case and
+    # equal datatypes; rdflib.graph.DATASET_DEFAULT_GRAPH_ID).  The specification is compared with the real rdflib by primcheck.py
+    "rdflib_serialize": {"src": "pyjelly/integrations/rdflib/serialize.py", "ctx": True, "uses": ["lookup_enc", "options", "encode"],
+                         "gen": "RdflibSerializeGen",
+                         "items": [
+                             {"dyn": "obj", "foreign": "rdflib", "module": "rdflib",
+                              "classes": {"URIRef": [("value", "str")], "BNode": [("value", "str")],
+                                          "Literal": [("lex", "str"), ("language", ("opt", "str")), ("datatype", ("opt", "str"))]},
+                              "eq_lower": [("Literal", "language")],
+                              "str": {"URIRef": "value", "BNode": "value", "Literal": "lex"},
+                              # x.datatype is a URIRef or None: the field stands for its string, `x.datatype and str(x.datatype)` is the field
+                              "str_valued": ["datatype"],
+                              "constants": {"DATASET_DEFAULT_GRAPH_ID": ("URIRef", "urn:x-rdflib:default")}},
+                             {"extend": "TermEncoder", "subclass": "RDFLibTermEncoder", "base_src": "pyjelly/serialize/encode.py",
+                              "methods": ["encode_spo", "encode_graph"], "inline": ["get_iri_field", "get_literal_field", "get_triple_field"]}]},
     "encode": {"src": "pyjelly/serialize/encode.py", "ctx": True, "uses": ["lookup_enc", "options"], "gen": "EncodeGen",
                "items": ["split_iri", ("TermEncoder", ["__init__", "start_statement", "_entry_index", "encode_iri_indices", "encode_iri",
                                                        "encode_default_graph", "encode_literal", "set_bnode_field", "encode_quoted_triple"], ["encode_spo", "encode_graph"]),
                          "encode_namespace_declaration", "encode_options", "encode_spo", "encode_triple", "encode_quad"]},
 }
+
+
+class ForeignNames(ast.NodeTransformer):
+    """The names of a specified library in the source: <module>.<Class> is the class; a constant of the library is the object the
+    specification says; `x.f and str(x.f)` for a field f that stands for the string of what it holds is x.f."""
+
+    def __init__(self, spec: dict):
+        self.spec = spec
+
+    def visit_Attribute(self, n):
+        self.generic_visit(n)
+        if isinstance(n.value, ast.Name) and n.value.id == self.spec["module"] and n.attr in self.spec["classes"]:
+            return ast.copy_location(ast.Name(id=n.attr, ctx=n.ctx), n)
+        return n
+
+    def visit_Name(self, n):
+        c = self.spec.get("constants", {}).get(n.id)
+        if c is not None and isinstance(n.ctx, ast.Load):
+            return ast.copy_location(ast.Call(func=ast.Name(id=c[0], ctx=ast.Load()), args=[ast.Constant(value=c[1])], keywords=[]), n)
+        return n
+
+    def visit_BoolOp(self, n):
+        self.generic_visit(n)
+        if isinstance(n.op, ast.And) and len(n.values) == 2:
+            a, b = n.values
+            if isinstance(a, ast.Attribute) and a.attr in self.spec.get("str_valued", ()) and isinstance(b, ast.Call) and isinstance(b.func, ast.Name) \
+                    and b.func.id == "str" and len(b.args) == 1 and not b.keywords and ast.unparse(b.args[0]) == ast.unparse(a):
+                return a
+        return n
 
 
 def item_name(n):
@@ -2543,8 +2597,12 @@ def run_unit(repo: Path, unit: str) -> tuple["Translator", set[str], list[str]]:
     tr.func_specs = u.get("functions", {})
     for spec in dyn_specs:
         import dyn
-        tr.out.append(f"(* ---- dynamic values ({spec['src']}): {', '.join(spec['classes'])}; {', '.join(spec.get('singletons', {}))} *)")
-        if spec.get("imported"):
+        tr.out.append(f"(* ---- dynamic values ({spec.get('src', 'specified: ' + str(spec.get('foreign')))}): {', '.join(spec['classes'])}; {', '.join(spec.get('singletons', {}))} *)")
+        if spec.get("foreign"):
+            dyn.add_foreign_dyn(tr, spec)
+            tr.dyn_count = len(tr.out)
+            tr.foreign = spec
+        elif spec.get("imported"):
             n0 = len(tr.out)
             dyn.add_dyn(tr, repo, spec)  # fills the tables; the definitions are those of the unit imported from
             del tr.out[n0 - 1:]
@@ -2574,6 +2632,9 @@ def run_unit(repo: Path, unit: str) -> tuple["Translator", set[str], list[str]]:
             INT_ENUMS[n.name] = {st.targets[0].id: st.value.value for st in n.body
                                  if isinstance(st, ast.Assign) and isinstance(st.targets[0], ast.Name) and isinstance(st.value, ast.Constant)}
     mod = ast.parse(f.read_text())
+    if getattr(tr, "foreign", None):
+        mod = ForeignNames(tr.foreign).visit(mod)
+        ast.fix_missing_locations(mod)
     chosen = []
     for n in mod.body:
         if isinstance(n, ast.AnnAssign) and isinstance(n.target, ast.Name) and ast.unparse(n.annotation) == "TypeAlias" and n.value is not None:
